@@ -383,6 +383,7 @@ def enum_scenarios(quick, seed):
     specs = [
         ('1sim', make_spec([(2, 2)], [(1 / 3, 1 / 3, 1 / 3)], [0.2]), 1),
         ('2x2sims', make_spec([(2, 2), (2, 3)], [(1 / 3, 1 / 3, 1 / 3)], [0.1, 0.3]), 4),
+        ('ulp-rates', make_spec([(2, 2)], [(1 / 3, 1 / 3, 1 / 3)], [0.3, 0.1 + 0.2]), 2),
     ]
     if not quick:
         specs.append(('big', make_spec([(3, 3), (3, 4), (4, 4)], [(1 / 3, 1 / 3, 1 / 3), (0, 0, 1)],
@@ -409,7 +410,10 @@ def enum_scenarios(quick, seed):
 @st.composite
 def histories(draw):
     sizes = draw(st.lists(st.sampled_from([(2, 2), (2, 3), (3, 2)]), min_size=1, max_size=2, unique=True))
-    rates = draw(st.lists(st.sampled_from([0.1, 0.2, 0.3]), min_size=1, max_size=2, unique=True))
+    # 0.1 + 0.2 and 0.3 differ by one ulp: distinct error rates, as a range
+    # helper and a typed literal produce them
+    rates = draw(st.lists(st.sampled_from([0.1, 0.2, 0.3, 0.1 + 0.2]), min_size=1, max_size=3,
+                          unique=True))
     spec0 = make_spec(sizes, [(1 / 3, 1 / 3, 1 / 3)], rates)
     runs = []
     target = 0
@@ -426,14 +430,15 @@ def histories(draw):
             run['stop'] = ['ki_trial', draw(st.integers(0, 3)), draw(st.integers(0, target))]
         if draw(st.integers(0, 5)) == 0:
             run['grow'] = draw(st.sampled_from([['size', 3, 3], ['size', 2, 4], ['rate', 0.15],
-                                                ['rate', 0.25]]))
+                                                ['rate', 0.25], ['rate', 0.1 + 0.2],
+                                                ['rate', 0.3]]))
         runs.append(run)
     runs.append({'target': target + draw(st.integers(0, 2)), 'sf': draw(st.integers(1, 3))})
     case = {'kind': 'history', 'fmt': draw(st.sampled_from(['json', 'gz'])), 'spec0': spec0,
             'runs': runs, 'seed': draw(st.integers(0, 10**6))}
     if draw(st.booleans()):
         # foreign records: inputs differ in exactly one respect
-        how = draw(st.sampled_from(['size', 'direction', 'rate', 'decoder']))
+        how = draw(st.sampled_from(['size', 'direction', 'rate', 'rate_ulp', 'decoder']))
         f = copy.deepcopy(spec0)
         if how == 'size':
             f['ranges']['code']['parameters'] = [{'L_x': 4, 'L_y': 2}]
@@ -441,6 +446,16 @@ def histories(draw):
             f['ranges']['error_model']['parameters'] = [{'r_x': 0.2, 'r_y': 0.3, 'r_z': 0.5}]
         elif how == 'rate':
             f['ranges']['error_rate'] = [0.123]
+        elif how == 'rate_ulp':
+            import math
+            # a few ulps away from every requested rate, and equal to none
+            far = []
+            for r_ in rates:
+                v = r_
+                for _ in range(5):
+                    v = math.nextafter(v, 1.0)
+                far.append(v)
+            f['ranges']['error_rate'] = [v for v in far if v not in rates]
         else:
             f['ranges']['decoder'] = {'name': 'MatchingDecoder', 'parameters': {'error_type': 'X'}}
         case['foreign'] = {'spec': f, 'n': runs[-1]['target'], 'how': how}
